@@ -30,18 +30,18 @@ META = {
     "design_ref": "DESIGN.md §3 C13",
     "engines": ["optrun", "proggen"],
 }
-REQUIRED = ("twin_runs", "trials_compared", "pruning_decisions_true", "multi_objective_twins", "best_trial_comparisons")
+REQUIRED = ("cases_on_sqlite", "twin_runs", "trials_compared", "pruning_decisions_true", "multi_objective_twins", "best_trial_comparisons")
 SHARDS = {"quick": 14, "thorough": 16}
 WATCHDOG_S = {"quick": 1200, "thorough": 5 * 3600}
 BUDGET_S = {"quick": 70, "thorough": 3000}
 SAMPLERS = ["random", "tpe", "tpe_mv_group", "tpe_liar", "nsga2", "nsga3", "qmc", "partial_fixed", "bruteforce"]
 
 
-def run_one(sampler_name, pruner_name, prog, seed, n_trials, dirs, mirror):
+def run_one(sampler_name, pruner_name, prog, seed, n_trials, dirs, mirror, storage=None):
     import optuna
 
     study = optuna.create_study(sampler=optrun.make_sampler(sampler_name, seed, prog), pruner=optrun.make_pruner(pruner_name, mirror=mirror),
-                                directions=dirs, study_name="c13")
+                                directions=dirs, study_name="c13", storage=storage)
     err = None
     try:
         study.optimize(optrun.make_objective(prog), n_trials=n_trials, catch=(RuntimeError,))
@@ -77,14 +77,37 @@ def one_case(ctx: Ctx, rng, cidx: int, force_sampler: str | None = None) -> None
         prog["reports"] = 0
     base_dirs = [rng.choice(["minimize", "maximize"]) for _ in range(nobj)]
     base_sign = [1.0] * nobj
-    A, errA = run_one(sampler_name, pruner_name, {**prog, "sign": base_sign}, seed, n_trials, base_dirs, mirror=False)
+    # every 5th case keeps its studies in SQLite (the RDB storage answers best_trial with direction-specific SQL)
+    on_sqlite = cidx % 5 == 2 and sampler_name != "gp"
+    stores = []
+
+    def new_storage():
+        if not on_sqlite:
+            return None
+        from vf import backends
+
+        st = backends.Store("sqlite")
+        stores.append(st)
+        return st.client()
+
+    try:
+        _one_case_body(ctx, rng, cidx, sampler_name, pruner_name, nobj, prog, seed, n_trials, base_dirs, base_sign, new_storage, on_sqlite)
+    finally:
+        for st in stores:
+            st.close()
+
+
+def _one_case_body(ctx, rng, cidx, sampler_name, pruner_name, nobj, prog, seed, n_trials, base_dirs, base_sign, new_storage, on_sqlite) -> None:
+    A, errA = run_one(sampler_name, pruner_name, {**prog, "sign": base_sign}, seed, n_trials, base_dirs, mirror=False, storage=new_storage())
+    if on_sqlite:
+        ctx.count("cases_on_sqlite")
     sa = summary(A)
     # pairwise-distinct values are a premise of the property
     vals = [tuple(t["values"]) for t in sa if t["values"] is not None]
     if any(len({v[k] for v in vals}) != len(vals) for k in range(nobj)):
         ctx.count("discarded_for_ties")
         return
-    case0 = {"sampler": sampler_name, "pruner": pruner_name, "program": canon(__import__("vf.checks.c09", fromlist=["freeze"]).freeze(prog)), "run_seed": seed, "n_trials": n_trials,
+    case0 = {"storage": "sqlite" if on_sqlite else "inmemory", "sampler": sampler_name, "pruner": pruner_name, "program": canon(__import__("vf.checks.c09", fromlist=["freeze"]).freeze(prog)), "run_seed": seed, "n_trials": n_trials,
              "n_objectives": nobj, "directions": base_dirs, "case_index": cidx, "seed": ctx.seed}
     ctx.case(case0, any(t["state"] == "PRUNED" for t in sa) or nobj > 1)
     ctx.count(f"sampler_{sampler_name}")
@@ -94,13 +117,13 @@ def one_case(ctx: Ctx, rng, cidx: int, force_sampler: str | None = None) -> None
     for sub in subsets:
         dirs = [("maximize" if d == "minimize" else "minimize") if k in sub else d for k, d in enumerate(base_dirs)]
         sign = [-1.0 if k in sub else 1.0 for k in range(nobj)]
-        B, errB = run_one(sampler_name, pruner_name, {**copy.deepcopy(prog), "sign": sign}, seed, n_trials, dirs, mirror=(0 in sub))
+        B, errB = run_one(sampler_name, pruner_name, {**copy.deepcopy(prog), "sign": sign}, seed, n_trials, dirs, mirror=(0 in sub), storage=new_storage())
         sb = summary(B)
         ctx.count("twin_runs")
         if nobj > 1:
             ctx.count("multi_objective_twins")
         ctx.count("trials_compared", min(len(sa), len(sb)))
-        facts = {"sampler_family": optrun.sampler_family(sampler_name), "sampler": sampler_name, "pruner": pruner_name, "n_objectives": min(nobj, 2),
+        facts = {"storage": "sqlite" if on_sqlite else "inmemory", "sampler_family": optrun.sampler_family(sampler_name), "sampler": sampler_name, "pruner": pruner_name, "n_objectives": min(nobj, 2),
                  "flipped_includes_last_objective": (nobj - 1) in sub, "flipped_all": len(sub) == nobj}
         case = {**case0, "flipped": list(sub)}
         if (errA or "").split(":")[0] != (errB or "").split(":")[0]:
